@@ -1,4 +1,4 @@
-import FluteModel.Lemmas.SchedPrio
+import FluteModel.Lemmas.SchedClock
 /-
   C14 - Timing.  Time is `Nat` nanoseconds supplied by the caller with every `read` / `publish`; the one
   floating point computation (`packet_transmission_tick = duration.div_f64(n)`) is an input of the transfer
@@ -6,7 +6,7 @@ import FluteModel.Lemmas.SchedPrio
   with ARBITRARY instants (monotonicity of the clock is not needed for these statements).
 -/
 namespace Flute.Props.C14
-open Flute.Sched Flute.Spec.Timing
+open Flute.Sched Flute.Spec.Timing Flute.Spec.Lifecycle
 
 /-- every event of every history passes the timing checks of every object (see `Spec.Timing.TM.check`) -/
 theorem timing_checked (cfg : Cfg) (tbl : List Nat) (ops : List Op) (toi : Nat) :
@@ -14,10 +14,7 @@ theorem timing_checked (cfg : Cfg) (tbl : List Nat) (ops : List Op) (toi : Nat) 
   (time_run cfg tbl ops).checked toi
 
 /-- No transfer of an object starts before the transfer start time in effect (`add_object`'s, or the one set by
-    an applied `trigger_transfer_at`); the `Start` event reports exactly that start time.
-    (Packets of a transfer follow its Start in the trace - `C12.lifecycle_checked` - hence, on a non-decreasing
-    clock, no packet precedes the start time either; that last step is not formalised: PARTIAL for the
-    per-packet reading, full for transfer starts.) -/
+    an applied `trigger_transfer_at`); the `Start` event reports exactly that start time.  Arbitrary instants. -/
 theorem not_before_start_time (cfg : Cfg) (tbl : List Nat) (ops : List Op) (toi : Nat)
     (post pre : List Ev) (now : Nat) (st tick : Option Nat)
     (hs : trace cfg tbl ops = post ++ Ev.start now toi st tick :: pre) :
@@ -25,6 +22,29 @@ theorem not_before_start_time (cfg : Cfg) (tbl : List Nat) (ops : List Op) (toi 
   have hc := tchecked_at post _ pre (hs ▸ timing_checked cfg tbl ops toi)
   obtain ⟨h1, h2, _⟩ := hc rfl
   exact ⟨h1, fun x hx => h2 x (by rw [← h1]; exact hx)⟩
+
+/-- ... and no PACKET either, on a clock that never goes backwards (`MonoFrom 0 ops`: the instants passed to
+    `read` / `publish` are non-decreasing): every packet of an object is preceded in the trace by the Start entry of
+    its transfer, that Start is not later than the packet, and it was not earlier than the start time `st` in effect. -/
+theorem no_packet_before_start_time (cfg : Cfg) (tbl : List Nat) (ops : List Op) (hm : MonoFrom 0 ops) (toi : Nat)
+    (post pre : List Ev) (now prio idx : Nat) (b : Bool)
+    (hs : trace cfg tbl ops = post ++ Ev.pkt now prio toi idx b :: pre) :
+    ∃ tstart st tk, Ev.start tstart toi st tk ∈ pre ∧ tstart ≤ now ∧ ∀ x, st = some x → x ≤ now := by
+  have hlc : Checked toi (trace cfg tbl ops) := (life_run cfg tbl ops).2.checked toi
+  have hact : (LM.run toi pre).active = true := (checked_at post _ pre (hs ▸ hlc) rfl).1
+  have htc : TChecked toi pre := by
+    have h := timing_checked cfg tbl ops toi
+    rw [hs] at h
+    clear hs hact
+    induction post with
+    | nil => exact h.1
+    | cons x r ih => exact ih h.1
+  obtain ⟨st, tk, hmem, hle⟩ := tStart_is_start toi pre htc hact
+  have hsorted := trace_sorted cfg tbl ops hm
+  rw [hs] at hsorted
+  have hall := sorted_at post _ pre hsorted now rfl
+  have h1 : (TM.run toi pre).tStart ≤ now := hall _ hmem _ rfl
+  exact ⟨_, st, tk, hmem, h1, fun x hx => Nat.le_trans (hle x hx) h1⟩
 
 /-- Carousel gap, general (burst) form: a transfer that follows a completed round - `max_transfer_count`
     transfers done in the current round - starts MORE than `delay` after the previous transfer ended, resp. MORE
@@ -99,18 +119,25 @@ theorem pacing_progress (cfg : Cfg) (tbl : List Nat) (ops : List Op) (pre post :
   obtain ⟨h1, h2⟩ := read_due cfg tbl ops pre post q j c f now ticks hsess hjs hf hg hs hlt
   exact ⟨h1, fun p t i b e => prio_le_of_sorted cfg tbl ops pre post q hsorted hsess p (h2 p t i b e)⟩
 
-/-- Degenerate inputs are safe: no Rust panic in any history, for any configuration (incl. empty objects with
-    a target duration / deadline - repaired defect D4: not paced -, `fdt_start_id = u32::MAX` - repaired
-    overflow of `fdtid + 1` -, deadlines in the past, zero delays / intervals / durations), and `read` always
-    returns.  A deadline in the past gives tick 0, which never blocks (`pacing_lower_bound` degenerates to
-    `start ≤ now`); a zero delay needs the clock to advance by 1 ns (`now - end > 0`).
-    After the two repairs no transition of the model sets `panic` any more, so the first half rests on the
-    review of the scheduler's arithmetic stated in `Sched.lean` and on the correspondence run (every PANIC of
-    the real code is an observation). -/
+/-- Degenerate inputs do not stall a poll: for any configuration and history (incl. empty objects with a target
+    duration / deadline - repaired defect D4: not paced -, deadlines in the past, zero delays / intervals /
+    durations, `fdt_duration = 0`) the `loop` of `SenderSession::run` never exhausts its fuel: `read` returns.
+    A deadline in the past gives tick 0, which never blocks (`pacing_lower_bound` degenerates to `start ≤ now`); a
+    zero delay needs the clock to advance by 1 ns (`now - end > 0`).  (That REPEATED reads reach `None` is C12's
+    `read_terminates`.)
+    NO-CRASH IS NOT A THEOREM: the model executes no partial arithmetic - times and counters are unbounded `Nat`,
+    `State.panic` is assigned by no transition - so a statement `panic = none` would be vacuous and is not made.
+    The crashes the scheduler path had were found by review / replay and the correspondence run and repaired in the
+    Rust code: `div_f64(0)` for an empty paced object (D4), `fdtid + 1` at `fdt_start_id = u32::MAX`,
+    `interleave_blocks = 0`, `(ntp >> 32) + fdt_duration` for `fdt_duration` near `Duration::MAX`, and
+    `now + Expires(d)` for an unrepresentable sum (inside `Sender::read` in ObjectsBeingTransferred mode).  What is
+    left on that path: `transfer_count + 1` / `+= 1` in `u32` (needs 2^32 transfers of one object),
+    `Duration::div_f64(n)` with `n ≥ 1` (result ≤ target), `SystemTime::checked_add` in `TransferInfo::tick` (no
+    panic; on overflow - a tick of ~2^63 s - the due time is not advanced, outside the stated domain).  Every PANIC of
+    the real code is an observation of the engine (oracle `C14:degenerate-panic`; families `degen-*`, `huge-*`). -/
 theorem degenerate_safe (cfg : Cfg) (tbl : List Nat) (ops : List Op) :
-    (run (init cfg tbl) ops).panic = none ∧
     ∀ now ticks, (read (run (init cfg tbl) ops) now ticks).2 ≠ Out.hang :=
-  ⟨safe_run cfg tbl ops, fun now ticks => read_no_hang _ now ticks⟩
+  fun now ticks => read_no_hang _ now ticks
 
 /-! F14 (finding, documented behaviour): with `max_transfer_count = 2` and a carousel delay the literal clause
     fails - the second transfer of a burst starts at the very instant the first one ended. -/
@@ -136,5 +163,8 @@ def histP : List Op :=
 example : Ev.start 7 1 (some 7) (some 10) ∈ trace cfg1 [1] histP := by decide
 example : Ev.pkt 17 0 1 1 false ∈ trace cfg1 [1] histP ∧ Ev.pkt 27 0 1 2 false ∈ trace cfg1 [1] histP := by decide
 example : Ev.start 141 1 (some 7) (some 10) ∈ trace cfg1 [1] histP ∧ Ev.idle 140 ∈ trace cfg1 [1] histP ∧ Ev.stop 40 1 ∈ trace cfg1 [1] histP := by decide
+
+example : MonoFrom 0 histP := by
+  simp [histP, MonoFrom]
 
 end Flute.Props.C14
